@@ -393,6 +393,8 @@ def show(e, depth=0):
                 if op == '()':
                     return '%s(%s)' % (show(e['obj'], d), args)
                 if not e['args']:
+                    if op == '->':
+                        return show(e['obj'], d)
                     return '%s%s' % (op, show(e['obj'], d))
                 return '(%s %s %s)' % (show(e['obj'], d), op, args)
             if len(e['args']) == 2:
@@ -467,6 +469,17 @@ def strip_casts(e):
             e = e['e']
         else:
             break
+    return e
+
+
+def strip_conv(e):
+    """strip casts, copies and single-argument converting constructions (iterator -> const_iterator ...)"""
+    while e is not None:
+        e2 = strip_casts(e)
+        if e2 is not None and e2.get('k') == 'construct' and len(e2['args']) == 1 and not e2.get('ctor_in_repo'):
+            e = e2['args'][0]
+            continue
+        return e2
     return e
 
 
